@@ -175,6 +175,20 @@ def check_window(case):
     return fails, (st, case["n"], tuple(round(v, 9) for v in z), ambiguous)
 
 
+@kind("window-long")
+def check_window_long(case):
+    """the same clauses on long series: `len` points on an exactly representable grid"""
+    from mc.harness import shrink
+    m = case["len"]
+    c = dict(case, kind="window", x=A.long_grid(m, case["grid"]), y=A.long_values(m, case["ypattern"]))
+    fails, sig = check_window(c)
+    return shrink(fails, long=True), (None if sig is None else (sig[0], sig[1], (m, case["grid"], case["ypattern"], hash(sig[2]) & 0xffffff), sig[3]))
+
+
+def long_sizes(quick):
+    return A.sizes(40 if quick else 72, 1100 if quick else 9000, minimum=3, subpath="", )
+
+
 def only(prefix, fails):
     out = []
     for f in fails:
